@@ -26,12 +26,10 @@ var Redirects = map[string][2]string{
 
 // Unsupported std packages that would bypass the simulated environment.
 var Forbidden = map[string]string{
-	"os/exec":               "spawns real processes",
-	"os/signal":             "real signals",
-	"syscall":               "direct system calls bypass the simulated os",
-	"net":                   "real sockets",
-	"net/http":              "real sockets",
-	"golang.org/x/sys/unix": "direct system calls bypass the simulated os",
+	"os/exec":   "spawns real processes",
+	"os/signal": "real signals",
+	"net":       "real sockets",
+	"net/http":  "real sockets",
 }
 
 // Site describes one yield site.
